@@ -398,6 +398,7 @@ func runC08(c *core.Ctx, o Options) {
 	checkPoolRange(c, "W1", "Outgoing")
 	checkPoolGrowOnly(c, "W1")
 	w.checkTimerClosers("W2")
+	w.checkStartAlwaysArms("W3")
 	c.RuleMin = map[string]int{"W1": 8, "W2": 4, "W3": 1, "W4": 5}
 	c.MinObl = 10
 }
@@ -611,6 +612,7 @@ func runC09(c *core.Ctx, o Options) {
 	checkPoolRange(c, "X1", "Incoming")
 	checkPoolGrowOnly(c, "X1")
 	w.checkTimerClosers("X3")
+	w.checkStartAlwaysArms("X2")
 	c.RuleMin = map[string]int{"M1": 3, "W4": 5, "X1": 9, "X2": 1, "X3": 4, "X4": 6}
 	c.MinObl = 14
 }
@@ -731,6 +733,39 @@ func checkCloseChain(c *core.Ctx, rule string) {
 			})
 		}
 		c.Check(closes && cancels, rule, "Conn.Close", "closes the socket and cancels the connection context", cc.Pos(), "net.Conn.Close and c.cancel", "Conn.Close does not both close the socket and cancel the context")
+		// on every path: a reader blocked in a read is released only by closing the socket (cancelling the context does not wake it)
+		mustClose := true
+		nPaths := 0
+		for _, f := range an.WithAnon(cc) {
+			has := false
+			an.AllInstrs(f, func(in ssa.Instruction) {
+				if call, ok := in.(*ssa.Call); ok && call.Call.IsInvoke() && call.Call.Method.Name() == "Close" && strings.HasSuffix(an.Render(call.Call.Value), ".conn") {
+					has = true
+				}
+			})
+			if !has {
+				continue
+			}
+			ps, _ := an.EnumPaths(f, 256)
+			for _, p := range ps {
+				if p.Return == nil {
+					continue
+				}
+				nPaths++
+				passes := false
+				for _, b := range p.Blocks {
+					for _, in := range b.Instrs {
+						if call, ok := in.(*ssa.Call); ok && call.Call.IsInvoke() && call.Call.Method.Name() == "Close" && strings.HasSuffix(an.Render(call.Call.Value), ".conn") {
+							passes = true
+						}
+					}
+				}
+				if !passes {
+					mustClose = false
+				}
+			}
+		}
+		c.Check(mustClose && nPaths > 0, rule, "Conn.Close", "the socket is closed on every path of the close", cc.Pos(), "net.Conn.Close on each path", "a path of Conn.Close returns without closing the socket (a half-close, a deferred close elsewhere): a reader blocked in Read on an idle peer is never released, so the connection's goroutines and Serve never end")
 	}
 }
 
@@ -873,4 +908,36 @@ func (w *wiring) checkTimerClosers(rule string) {
 		}
 	}
 	c.Check(n >= 1, rule, "start", "timer Close sites found", w.start.Pos(), fmt.Sprint(n), "no Timer.Close call found in package session (the timers would leak; anchor moved)")
+}
+
+// checkStartAlwaysArms: every successful return of start has created both timers (with the periods of the settings in force now)
+// and spawned both goroutines — no early success that keeps the timers of an earlier logon, whose interval may differ.
+func (w *wiring) checkStartAlwaysArms(rule string) {
+	c := w.s.c
+	var need []ssa.Instruction
+	an.AllInstrs(w.start, func(in ssa.Instruction) {
+		switch x := in.(type) {
+		case *ssa.Go:
+			need = append(need, x)
+		case *ssa.Call:
+			if an.CalleeIs(&x.Call, "utils", "NewTimer") {
+				need = append(need, x)
+			}
+		}
+	})
+	paths, _ := an.EnumPaths(w.start, 4096)
+	bad := ""
+	n := 0
+	for _, p := range paths {
+		if p.Return == nil || len(p.Results) != 1 || p.Results[0] != "nil" {
+			continue
+		}
+		n++
+		for _, in := range need {
+			if !p.Passes(in) {
+				bad = "start returns nil under [" + p.CondString() + "] without creating its timers / starting its goroutines: the session keeps running on the timers of an earlier logon, whose interval may differ from the one just negotiated"
+			}
+		}
+	}
+	c.Check(bad == "" && n > 0 && len(need) >= 4, rule, "start", "every successful start arms both timers with the current settings", w.start.Pos(), fmt.Sprintf("%d success path(s) pass %d timer/goroutine sites", n, len(need)), bad)
 }
